@@ -3,6 +3,7 @@ package harness
 import (
 	"fmt"
 	"strings"
+	"sync"
 	"testing"
 
 	"github.com/jcmturner/gokrb5/v8/crypto"
@@ -180,6 +181,85 @@ func TestC07(t *testing.T) {
 				v.Case(fmt.Sprintf("wrong-size-key/%d/%d/%d", ct, n, ci), "verify wrong-size-key")
 				if got {
 					v.Violate("failing-input", fmt.Sprintf("c07:verify:wrong-size-key:%d", ct), "VerifyChecksum returned true under a key of the wrong size "+pan, map[string]string{"cksumtype": itoa(ct), "key": X(bad), "data": X(data), "cksum": X(c)})
+				}
+			}
+		}
+	}
+	// goroutines computing and verifying checksums at the same time, each with a usage number of its own (a service
+	// checks MICs of many contexts at once): every value is the one computed alone (and given by the model)
+	for _, ct := range cksumTypes {
+		e, err := crypto.GetChksumEtype(ct)
+		if err != nil {
+			continue
+		}
+		et := cksumEtypeSpec(ct)
+		key, data := randKey(rng, et), rng.Bytes(24)
+		const workers = 16
+		want := make([][]byte, workers)
+		okRef := true
+		for g := 0; g < workers; g++ {
+			u := uint32(20 + g)
+			want[g], err = e.GetChecksumHash(key, data, u)
+			if err != nil || m.Ask(fmt.Sprintf("cr.cksum %d %s %d %s", et, X(key), u, X(data))) != "ok "+X(want[g]) {
+				okRef = false
+			}
+		}
+		if !okRef {
+			continue // (value differences are reported by the sequential cases above)
+		}
+		rounds := 400
+		if Thorough() {
+			rounds = 4000
+		}
+		bad := make([]string, workers)
+		var wg sync.WaitGroup
+		for g := 0; g < workers; g++ {
+			wg.Add(1)
+			go func(g int) {
+				defer wg.Done()
+				u := uint32(20 + g)
+				for i := 0; i < rounds && bad[g] == ""; i++ {
+					var sum []byte
+					var cerr error
+					var ok bool
+					if p := Protect(func() {
+						sum, cerr = e.GetChecksumHash(key, data, u)
+						ok = e.VerifyChecksum(key, data, want[g], u)
+					}); p != "" || cerr != nil || string(sum) != string(want[g]) || !ok {
+						bad[g] = fmt.Sprintf("usage %d round %d: computed %s, alone %s, verify(alone)=%v err=%v %s", u, i, X(sum), X(want[g]), ok, cerr, p)
+					}
+				}
+			}(g)
+		}
+		wg.Wait()
+		v.Case(fmt.Sprintf("concurrent/%d", ct), "checksums computed by 16 goroutines at once")
+		for _, b := range bad {
+			if b != "" {
+				v.Violate("failing-input", fmt.Sprintf("c07:concurrent:%d", ct), "a checksum computed while other goroutines compute checksums with other usage numbers is not the value computed alone", map[string]string{"cksumtype": itoa(ct), "key": X(key), "data": X(data), "first": b})
+				break
+			}
+		}
+	}
+	// the HMAC-MD5 checksum (-138) is defined for a key of any length (RFC 4757 section 4: it is also used with keys
+	// of other enctypes, as in PAC signatures): value and verification for keys of 1..64 octets
+	if e, err := crypto.GetChksumEtype(-138); err == nil {
+		for _, n := range []int{1, 8, 15, 17, 20, 24, 32, 64} {
+			for _, usage := range []uint32{17, 6, 3} {
+				key, data := rng.Bytes(n), rng.Bytes(1+rng.Intn(40))
+				var sum []byte
+				var cerr error
+				pan := Protect(func() { sum, cerr = e.GetChecksumHash(key, data, usage) })
+				op := fmt.Sprintf("cr.cksum 23 %s %d %s", X(key), usage, X(data))
+				mr := m.Ask(op)
+				v.Case(fmt.Sprintf("hmac-md5-keylen/%d/%d", n, usage), "hmac-md5 checksum with a key of another length")
+				if pan != "" || cerr != nil || mr != "ok "+X(sum) {
+					v.Violate("failing-input", "c07:value:-138:key-length", "the HMAC-MD5 checksum under a key that is not 16 octets long is not the RFC 4757 value", map[string]string{"op": op, "go": fmt.Sprintf("%s err=%v %s", X(sum), cerr, pan), "model": mr})
+					continue
+				}
+				var ok bool
+				Protect(func() { ok = e.VerifyChecksum(key, data, sum, usage) })
+				if !ok {
+					v.Violate("failing-input", "c07:verify:-138:key-length", "VerifyChecksum refuses the HMAC-MD5 checksum it computed under a key that is not 16 octets long", map[string]string{"op": op})
 				}
 			}
 		}
